@@ -96,6 +96,23 @@ def require_ok(r: TlcResult, what: str) -> TlcResult:
     return r
 
 
+def verdicts(r: TlcResult, n: int, what: str) -> Dict[str, Any]:
+    """Parse ACCEPT/REJECT lines printed by a Trace_* run; every trace must have one."""
+    acc, rej = set(), {}
+    for line in r.out.splitlines():
+        m = re.match(r'<<"ACCEPT", (\d+)>>', line)
+        if m:
+            acc.add(int(m.group(1)))
+        m = re.match(r'<<"REJECT", (\d+), (\d+), (.*)>>', line)
+        if m:
+            rej[int(m.group(1))] = {"event": int(m.group(2)), "clauses": m.group(3)}
+    if len(acc) + len(rej) != n:
+        tail = "\n".join(r.out.splitlines()[-40:])
+        raise MachineryError(f"{what}: {len(acc)}+{len(rej)} verdicts for {n} traces\n{tail}")
+    return {"accepted": acc, "rejected": rej}
+
+
+
 def read_ndjson(path: Path) -> List[Any]:
     out = []
     if not path.exists():
